@@ -278,3 +278,434 @@ Proof.
       destruct (peqb_spec newp oldp); [congruence|]. rewrite !path_eqb_refl.
       repeat split. apply linked_true. simpl. split; [exact Hn2|reflexivity].
 Qed.
+
+(* ================= the remaining operations ================= *)
+(* CreateEntry over an existing entry of the same type: the explicit result *)
+Lemma filer_create_existing : forall ev s p ex e, p <> [] -> nfind s p = Some ex ->
+  h_dir e = h_dir (view s ex) ->
+  filer_create ev s p e false =
+    (w_insert s p (set_crtime e (h_crtime (view s ex))), OK, delete_chunks_if_not_new ev (view s ex) e).
+Proof.
+  intros ev s p ex e Hp H Hd. unfold filer_create. rewrite find_entry_nonroot by assumption.
+  unfold w_find. rewrite H. unfold filer_update. rewrite Hd.
+  destruct (h_dir (view s ex)); reflexivity.
+Qed.
+
+(* deleting a file removes its own name only *)
+Lemma delete_entry_keeps_file : forall ev s p e rec ign data, find_entry ev s p = Some e -> h_dir e = false ->
+  Keeps (eq p) s (st_of (delete_entry ev s p rec ign data)).
+Proof.
+  intros ev s p e rec ign data Hf Hd.
+  destruct (delete_entry_cases ev s p rec ign data) as [[A _]|[e' [Hf' [_ [_ A]]]]]; rewrite A; [apply Keeps_refl|].
+  assert (e' = e) by congruence. subst e'. rewrite Hd in *.
+  intros q e0 Hq Hn.
+  assert (Hne : HardLink.path_eqb p q = false) by (destruct (peqb_spec p q); [contradiction|reflexivity]).
+  assert (H2 : nfind (w_delete_one s p e) q = Some e0) by (rewrite w_delete_one_nfind, Hne; exact Hq).
+  destruct data; [rewrite dhl_fold_nfind|]; exact H2.
+Qed.
+
+Lemma move_self_keeps : forall ev s oldp e newp ex, oldp <> [] ->
+  nfind s oldp = Some ex -> h_hl ex = 0%N -> h_dir ex = false ->
+  Keeps (fun q => q = oldp \/ q = newp) s (st_of (move_self ev s oldp e newp)).
+Proof.
+  intros ev s oldp e newp ex Ho Hex Hpl Hnd. unfold move_self.
+  destruct (peqb_spec oldp newp) as [E|E]; [apply Keeps_refl|].
+  pose proof (filer_create_keeps ev s newp (strip_link e) false) as K1.
+  destruct (filer_create ev s newp (strip_link e) false) as [[s1 r1] d1]. unfold st_of in K1. simpl in K1.
+  assert (K1' : Keeps (fun q => q = oldp \/ q = newp) s s1).
+  { eapply Keeps_weaken; [|exact K1]. intros q Hq. right. congruence. }
+  destruct r1; try exact K1'.
+  assert (Hex1 : nfind s1 oldp = Some ex) by (apply K1; [exact Hex|congruence]).
+  assert (Hf1 : find_entry ev s1 oldp = Some ex).
+  { rewrite find_entry_nonroot by assumption. unfold w_find. rewrite Hex1. now rewrite view_plain. }
+  pose proof (delete_entry_keeps_file ev s1 oldp ex false false false Hf1 Hnd) as K2.
+  destruct (delete_entry ev s1 oldp false false false) as [[s2 r2] d2]. unfold st_of in *. simpl in *.
+  eapply Keeps_trans; [exact K1'|]. eapply Keeps_weaken; [|exact K2]. intros q Hq. left. congruence.
+Qed.
+
+Definition StepGood (ev : env) (s : st) (o : op) : Prop :=
+  let r := step ev s o in
+  Inv (st_of r) /\ links_kept s o (err_of r) (st_of r) = true /\
+  effect_ok o (err_of r) (st_of r) (model_view (st_of r)) = true.
+
+Lemma good_unchanged : forall ev s o r d, Inv s -> r <> OK -> step ev s o = (s, r, d) -> StepGood ev s o.
+Proof.
+  intros ev s o r d I Hr E. unfold StepGood. rewrite E. unfold st_of, err_of. simpl.
+  split; [exact I|]. split; [now apply links_kept_err|now apply effect_ok_err].
+Qed.
+
+Lemma effect_trivial : forall o r s' vw,
+  match o with Link _ _ _ | Write _ _ _ _ => False | _ => True end -> effect_ok o r s' vw = true.
+Proof. intros. unfold effect_ok. destruct (is_err r); [reflexivity|]. destruct o; simpl; auto; contradiction. Qed.
+
+(* the entry a write sends: what FindEntry showed, with new chunks and mtime *)
+Lemma written_fields : forall e0 cs mt cs' t,
+  let E := set_crtime (set_chunks (set_mtime (set_chunks e0 cs) mt) cs') t in
+  h_hl E = h_hl e0 /\ h_cnt E = h_cnt e0 /\ h_dir E = h_dir e0 /\ h_mtime E = mt.
+Proof. intros. repeat split. Qed.
+
+Lemma view_after_write : forall s p ex E, Inv s -> nfind s p = Some ex -> h_hl E = h_hl (view s ex) ->
+  model_view (w_insert s p E) p = Some E.
+Proof.
+  intros s p ex E I H Hh. unfold model_view, w_find. rewrite w_insert_nfind, path_eqb_refl.
+  f_equal. destruct (N.eq_dec (h_hl E) 0) as [Z|Z]; [now apply view_plain|].
+  apply view_linked; [exact Z|]. apply kv_get_w_insert_same; [exact Z|].
+  intros ex0 H0. assert (ex0 = ex) by congruence. subst ex0.
+  right. rewrite Hh. symmetry. apply (view_hl [] s p ex I H).
+Qed.
+
+Theorem step_good : forall ev s o, Inv s -> c21_quiet ev s o = true -> StepGood ev s o.
+Proof.
+  intros ev s o I Hq. destruct (quiet_parts ev s o Hq) as [Hok [T0 [T1 [T2 Hsc]]]].
+  destruct o as [p e x|p e|p cs|p rec ign data|oldp newp|oldp newp fresh|p cs mt via|p].
+  - (* Create *)
+    simpl in Hok, T1. apply N.eqb_eq in Hok. rewrite Hok in T1. simpl in T1.
+    unfold StepGood. simpl. unfold scoped. destruct (in_scope p) eqn:Esc.
+    2:{ unfold st_of, err_of; simpl. split; [exact I|]. split; [now apply links_kept_err|now apply effect_ok_err]. }
+    pose proof (in_scope_nonroot p Esc) as Hp.
+    split; [|split; [|now apply effect_trivial]].
+    + destruct (grpc_create_cases ev s p e x) as [[A _]|[cs [A _]]]; rewrite A; [exact I|].
+      apply filer_create_plain_inv; auto. apply (blob_linked_false s p T1).
+    + apply links_kept_intro; [apply (ig_nd _ _ I)| |].
+      * intros q e0 _ _. simpl. destruct (HardLink.path_eqb p q); auto.
+      * intros q e0 H0 Hn0 Hi. simpl in Hi. exists e0. split; [|reflexivity].
+        apply (grpc_create_keeps ev s p e x q e0 H0). intro Eq. subst q. rewrite path_eqb_refl in Hi. discriminate.
+  - (* Update *)
+    simpl in Hok, T1. apply N.eqb_eq in Hok. rewrite Hok in T1. simpl in T1.
+    unfold StepGood. simpl. unfold scoped. destruct (in_scope p) eqn:Esc.
+    2:{ unfold st_of, err_of; simpl. split; [exact I|]. split; [now apply links_kept_err|now apply effect_ok_err]. }
+    split; [|split; [|now apply effect_trivial]].
+    + destruct (grpc_update_cases ev s p e); try exact I.
+      apply w_insert_plain_inv; auto. apply (blob_linked_false s p T1).
+    + apply links_kept_intro; [apply (ig_nd _ _ I)| |].
+      * intros q e0 _ _. simpl. destruct (HardLink.path_eqb p q); auto.
+      * intros q e0 H0 Hn0 Hi. simpl in Hi. exists e0. split; [|reflexivity].
+        apply (grpc_update_keeps ev s p e q e0 H0). intro Eq. subst q. rewrite path_eqb_refl in Hi. discriminate.
+  - (* Append *)
+    unfold StepGood. simpl. unfold scoped. destruct (in_scope p) eqn:Esc.
+    2:{ unfold st_of, err_of; simpl. split; [exact I|]. split; [now apply links_kept_err|now apply effect_ok_err]. }
+    pose proof (in_scope_nonroot p Esc) as Hp.
+    unfold grpc_append. rewrite (find_entry_nonroot ev s p Hp). unfold w_find.
+    destruct (nfind s p) as [ex|] eqn:Ex.
+    + set (E := set_chunks (view s ex) _).
+      rewrite (filer_create_existing ev s p ex E Hp Ex eq_refl). unfold st_of, err_of. simpl.
+      split; [|split; [|now apply effect_trivial]].
+      * apply (proj2 (write_back_inv ev s p ex (set_crtime E (h_crtime (view s ex))) I Hp Ex eq_refl eq_refl eq_refl)).
+      * apply links_kept_intro; [apply (ig_nd _ _ I)| |].
+        -- intros q e0 _ _. simpl. auto.
+        -- intros q e0 H0 Hn0 _. rewrite w_insert_nfind. destruct (peqb_spec p q).
+           ++ subst q. assert (e0 = ex) by congruence. subst e0. eexists. split; [reflexivity|].
+              simpl. apply (view_hl [] s p ex I Ex).
+           ++ exists e0. auto.
+    + set (E := set_chunks _ _).
+      split; [|split; [|now apply effect_trivial]].
+      * apply filer_create_plain_inv; auto. intros ex H. congruence.
+      * apply links_kept_intro; [apply (ig_nd _ _ I)| |].
+        -- intros q e0 _ _. simpl. auto.
+        -- intros q e0 H0 Hn0 _. exists e0. split; [|reflexivity].
+           apply (filer_create_keeps ev s p E false q e0 H0). intro Eq. subst q. congruence.
+  - (* Delete *)
+    unfold StepGood. simpl. unfold scoped. destruct (in_scope p) eqn:Esc.
+    2:{ unfold st_of, err_of; simpl. split; [exact I|]. split; [now apply links_kept_err|now apply effect_ok_err]. }
+    pose proof (in_scope_nonroot p Esc) as Hp.
+    rewrite grpc_delete_st.
+    split; [|split; [|now apply effect_trivial]].
+    + apply delete_entry_inv; auto. destruct data; [now left|]. right. right.
+      intros e Hf Hd. simpl in T2. rewrite Hf, Hd in T2. simpl in T2. now apply collect_ids_nil.
+    + apply links_kept_intro; [apply (ig_nd _ _ I)| |].
+      * intros q e0 _ _. simpl. destruct (HardLink.is_prefix p q); auto.
+      * intros q e0 H0 Hn0 Hi. simpl in Hi. exists e0. split; [|reflexivity].
+        apply (delete_entry_keeps ev s p rec ign data q e0 H0). intro Eq. rewrite Eq in Hi. discriminate.
+  - (* Rename *)
+    unfold StepGood. simpl. unfold grpc_rename.
+    destruct (in_scope oldp && in_scope newp) eqn:Esc; simpl.
+    2:{ unfold st_of, err_of; simpl. split; [exact I|]. split; [now apply links_kept_err|now apply effect_ok_err]. }
+    apply andb_true_iff in Esc. destruct Esc as [Eso Esn].
+    pose proof (in_scope_nonroot oldp Eso) as Ho. pose proof (in_scope_nonroot newp Esn) as Hn.
+    destruct (HardLink.is_prefix oldp (HardLink.parent newp)).
+    { unfold st_of, err_of; simpl. split; [exact I|]. split; [now apply links_kept_err|now apply effect_ok_err]. }
+    rewrite (find_entry_nonroot ev s oldp Ho). unfold w_find.
+    destruct (nfind s oldp) as [ex|] eqn:Ex.
+    2:{ unfold st_of, err_of; simpl. split; [exact I|]. split; [now apply links_kept_err|now apply effect_ok_err]. }
+    simpl in T0, T1, Hsc. apply negb_true_iff in Hsc.
+    apply orb_false_iff in T0. destruct T0 as [T0 _].
+    pose proof (blob_linked_false s oldp T0 ex Ex) as Hpl.
+    rewrite (view_plain s ex Hpl), Hsc. simpl.
+    split; [|split; [|now apply effect_trivial]].
+    + apply move_self_inv; auto. intros ex' H'.
+      destruct (peqb_spec oldp newp) as [E|E]; [congruence|]. simpl in T1.
+      apply orb_false_iff in T1. destruct T1 as [T1 _]. apply (blob_linked_false s newp T1 ex' H').
+    + apply links_kept_intro; [apply (ig_nd _ _ I)| |].
+      * intros q e0 H0 Hn0. simpl. destruct (HardLink.path_eqb oldp newp); [auto|].
+        destruct (peqb_spec oldp q); [subst q; congruence|]. rewrite Ex, Hsc.
+        destruct (HardLink.path_eqb newp q); auto.
+      * intros q e0 H0 Hn0 Hi. exists e0. split; [|reflexivity].
+        apply (move_self_keeps ev s oldp ex newp ex Ho Ex Hpl Hsc q e0 H0).
+        intros [Eq|Eq]; subst q; [congruence|].
+        simpl in Hi. destruct (peqb_spec oldp newp) as [E|E]; [congruence|].
+        rewrite Ex, Hsc, path_eqb_refl in Hi. discriminate.
+  - (* Link *)
+    unfold StepGood. simpl.
+    destruct (in_scope oldp && in_scope newp) eqn:Esc.
+    2:{ unfold st_of, err_of; simpl. split; [exact I|]. split; [now apply links_kept_err|now apply effect_ok_err]. }
+    apply andb_true_iff in Esc. destruct Esc as [Eso Esn].
+    pose proof (in_scope_nonroot oldp Eso) as Ho. pose proof (in_scope_nonroot newp Esn) as Hn.
+    simpl in Hok. repeat rewrite andb_true_iff in Hok. destruct Hok as [[[[Hid Hfile] Hnew] Hne] Hpar].
+    destruct (nfind s newp) eqn:Enew; [discriminate|].
+    apply negb_true_iff in Hne. destruct (peqb_spec oldp newp) as [|Hne']; [discriminate|].
+    assert (Hpar' : exists de, find_entry ev s (HardLink.parent newp) = Some de /\ h_dir de = true).
+    { destruct (find_entry ev s (HardLink.parent newp)) as [de|]; [eauto|discriminate]. }
+    destruct (mount_link_spec ev s oldp newp fresh I Ho Hn Hid Hfile Enew Hne' Hpar') as [I' [K [Hold Heff]]].
+    split; [exact I'|]. split.
+    + apply links_kept_intro; [apply (ig_nd _ _ I)| |].
+      * intros q e0 _ _. simpl. destruct (HardLink.path_eqb newp q); auto.
+      * intros q e0 H0 Hn0 Hi. simpl in Hi. destruct (peqb_spec newp q) as [|Hnq]; [discriminate|].
+        destruct (peqb_spec oldp q) as [Eq|Eq].
+        -- subst q. apply (Hold e0 H0 Hn0).
+        -- exists e0. split; [|reflexivity]. apply (K q e0 H0). intros [A|A]; congruence.
+    + unfold effect_ok. destruct (err_of (mount_link ev s oldp newp fresh)) eqn:Er; simpl; try reflexivity.
+      destruct (Heff eq_refl) as [e1 [e2 [A [B C]]]]. now rewrite A, B.
+  - (* Write *)
+    unfold StepGood. simpl. unfold scoped. destruct (in_scope p) eqn:Esc.
+    2:{ unfold st_of, err_of; simpl. split; [exact I|]. split; [now apply links_kept_err|now apply effect_ok_err]. }
+    pose proof (in_scope_nonroot p Esc) as Hp.
+    unfold mount_write. rewrite (find_entry_nonroot ev s p Hp). unfold w_find.
+    destruct (nfind s p) as [ex|] eqn:Ex.
+    2:{ unfold st_of, err_of; simpl. split; [exact I|]. split; [now apply links_kept_err|now apply effect_ok_err]. }
+    set (e := set_mtime (set_chunks (view s ex) cs) mt).
+    (* both ways end in w_insert s p E with E carrying the viewed id and counter, or change nothing *)
+    assert (Hmain : forall E, h_hl E = h_hl (view s ex) -> h_cnt E = h_cnt (view s ex) ->
+              h_dir E = h_dir (view s ex) -> h_mtime E = mt ->
+              Inv (w_insert s p E) /\ links_kept s (Write p cs mt via) OK (w_insert s p E) = true /\
+              effect_ok (Write p cs mt via) OK (w_insert s p E) (model_view (w_insert s p E)) = true).
+    { intros E Hh Hc Hd Hm. split; [|split].
+      - apply (proj2 (write_back_inv ev s p ex E I Hp Ex Hh Hc Hd)).
+      - apply links_kept_intro; [apply (ig_nd _ _ I)| |].
+        + intros q e0 _ _. simpl. auto.
+        + intros q e0 H0 Hn0 _. rewrite w_insert_nfind. destruct (peqb_spec p q).
+          * subst q. assert (e0 = ex) by congruence. subst e0. exists E. split; [reflexivity|].
+            rewrite Hh. apply (view_hl [] s p ex I Ex).
+          * exists e0. auto.
+      - unfold effect_ok. simpl. rewrite (view_after_write s p ex E I Ex Hh). now rewrite Hm, N.eqb_refl. }
+    destruct via.
+    + destruct (grpc_create_always ev s p e false) as [cs' [A B]]. rewrite A, B.
+      rewrite (filer_create_existing ev s p ex (set_chunks e cs') Hp Ex eq_refl). unfold st_of, err_of. simpl.
+      apply Hmain; reflexivity.
+    + pose proof (grpc_update_cases ev s p e) as Hu.
+      destruct (grpc_update ev s p e) as [[s1 r1] d1]. unfold st_of, err_of in Hu |- *. simpl in Hu |- *.
+      inversion Hu as [r Hr Es Er | ex' cs' Hf Heq Es Er | ex' cs' Hf Heq Hdd Es Er]; subst s1 r1.
+      * split; [exact I|]. split; [now apply links_kept_err|now apply effect_ok_err].
+      * split; [exact I|]. split.
+        -- apply links_kept_intro; [apply (ig_nd _ _ I)| |].
+           ++ intros q e0 _ _. simpl. auto.
+           ++ intros q e0 H0 _ _. exists e0. auto.
+        -- rewrite (find_entry_nonroot ev s p Hp) in Hf. unfold w_find in Hf. rewrite Ex in Hf.
+           inversion Hf; subst ex'. apply hentry_eqb_link in Heq. destruct Heq as [_ [_ Hm]].
+           unfold effect_ok. simpl. unfold model_view, w_find. rewrite Ex. rewrite Hm. simpl. apply N.eqb_refl.
+      * rewrite (find_entry_nonroot ev s p Hp) in Hf. unfold w_find in Hf. rewrite Ex in Hf.
+        inversion Hf; subst ex'. apply Hmain; reflexivity.
+  - (* Unlink *)
+    unfold StepGood. simpl. unfold scoped. destruct (in_scope p) eqn:Esc.
+    2:{ unfold st_of, err_of; simpl. split; [exact I|]. split; [now apply links_kept_err|now apply effect_ok_err]. }
+    pose proof (in_scope_nonroot p Esc) as Hp.
+    unfold mount_unlink. destruct (find_entry ev s p) as [e0|].
+    2:{ unfold st_of, err_of; simpl. split; [exact I|]. split; [now apply links_kept_err|now apply effect_ok_err]. }
+    rewrite grpc_delete_st.
+    split; [|split; [|now apply effect_trivial]].
+    + apply delete_entry_inv; auto.
+    + apply links_kept_intro; [apply (ig_nd _ _ I)| |].
+      * intros q e1 _ _. simpl. destruct (HardLink.is_prefix p q); auto.
+      * intros q e1 H0 Hn0 Hi. simpl in Hi. exists e1. split; [|reflexivity].
+        apply (delete_entry_keeps ev s p false false (h_cnt e0 <=? 1)%Z q e1 H0). intro Eq. rewrite Eq in Hi. discriminate.
+Qed.
+
+(* ================= the theorems of props/C21.v ================= *)
+Theorem step_ok_quiet : forall ev s o, Inv s -> c21_quiet ev s o = true ->
+  let r := step ev s o in
+  c21_step_ok s o (err_of r) (st_of r) (model_view (st_of r)) = true /\ Inv (st_of r).
+Proof.
+  intros ev s o I Hq. destruct (step_good ev s o I Hq) as [I' [L E]]. simpl. split; [|exact I'].
+  unfold c21_step_ok. rewrite (inv_counters_ok _ I'), (inv_shared_view _ I'), L, E. reflexivity.
+Qed.
+
+Theorem run_ok_quiet : forall ev ops s, Inv s -> c21_hist_quiet ev s ops = true -> c21_run_ok ev s ops = true.
+Proof.
+  induction ops as [|o ops IH]; intros s I H; [reflexivity|].
+  simpl in H. apply andb_true_iff in H. destruct H as [Hq Hr].
+  destruct (step_ok_quiet ev s o I Hq) as [A I']. simpl. rewrite A. simpl. apply IH; assumption.
+Qed.
+
+Lemma final_inv : forall ev ops s, Inv s -> c21_hist_quiet ev s ops = true -> Inv (final ev s ops).
+Proof.
+  induction ops as [|o ops IH]; intros s I H; [exact I|].
+  simpl in H. apply andb_true_iff in H. destruct H as [Hq Hr].
+  simpl. apply IH; [|assumption]. apply (step_ok_quiet ev s o I Hq).
+Qed.
+
+(* every step of a history outside the trigger sets satisfies the whole C21 property *)
+Theorem c21_history_partial : forall ev ops,
+  c21_hist_quiet ev empty_st ops = true -> c21_run_ok ev empty_st ops = true.
+Proof. intros. apply run_ok_quiet; [apply Inv_empty|assumption]. Qed.
+
+(* names with the same link id show the same entry, after any such history *)
+Theorem c21_shared_view_partial : forall ev ops, c21_hist_quiet ev empty_st ops = true ->
+  let s := final ev empty_st ops in
+  forall p1 e1 p2 e2, nfind s p1 = Some e1 -> nfind s p2 = Some e2 ->
+    h_hl e1 <> 0%N -> h_hl e1 = h_hl e2 -> model_view s p1 = model_view s p2.
+Proof.
+  intros ev ops H s p1 e1 p2 e2 F1 F2 Hn He.
+  pose proof (final_inv ev ops empty_st Inv_empty H) as I. fold s in I.
+  destruct (linked_has_record _ _ _ _ I F1 Hn) as [b Hb].
+  unfold model_view, w_find. rewrite F1, F2.
+  rewrite (view_linked s e1 b Hn Hb). rewrite (view_linked s e2 b); [reflexivity|congruence|congruence].
+Qed.
+
+(* ... and a write through one of them is what all of them show *)
+Theorem c21_write_through : forall ev s p cs mt via, Inv s ->
+  c21_quiet ev s (Write p cs mt via) = true ->
+  let r := step ev s (Write p cs mt via) in
+  err_of r = OK ->
+  forall e0 q eq, nfind s p = Some e0 -> nfind s q = Some eq -> h_hl e0 <> 0%N -> h_hl eq = h_hl e0 ->
+    exists e', model_view (st_of r) q = Some e' /\ model_view (st_of r) p = Some e' /\ h_mtime e' = mt.
+Proof.
+  intros ev s p cs mt via I Hq r Hok e0 q eq F0 Fq Hn He.
+  destruct (step_good ev s _ I Hq) as [I' [L E]]. fold r in I', L, E.
+  (* the written name shows the new mtime *)
+  unfold effect_ok in E. rewrite Hok in E. simpl in E.
+  destruct (model_view (st_of r) p) as [e'|] eqn:Vp; [|discriminate]. apply N.eqb_eq in E.
+  exists e'. split; [|split; [reflexivity|exact E]].
+  (* q and p are still linked, so they read the same record *)
+  unfold links_kept in L. rewrite Hok in L. simpl in L.
+  rewrite forallb_forall in L. specialize (L (p, e0) (nfind_In _ _ _ F0)).
+  rewrite forallb_forall in L. specialize (L (q, eq) (nfind_In _ _ _ Fq)). simpl in L.
+  assert (Hl : linked e0 eq = true) by (apply linked_true; split; congruence).
+  rewrite Hl in L. simpl in L.
+  destruct (nfind (st_of r) p) as [e1|] eqn:G1; [|discriminate].
+  destruct (nfind (st_of r) q) as [e2|] eqn:G2; [|discriminate].
+  apply linked_true in L. destruct L as [Ln Le].
+  destruct (linked_has_record _ _ _ _ I' G1 Ln) as [b Hb].
+  unfold model_view, w_find in *. rewrite G1 in Vp. rewrite G2.
+  rewrite (view_linked _ e1 b Ln Hb) in Vp. rewrite (view_linked _ e2 b); congruence.
+Qed.
+
+(* the counter of every record is the number of names carrying its id *)
+Theorem c21_counter_partial : forall ev ops, c21_hist_quiet ev empty_st ops = true ->
+  let s := final ev empty_st ops in
+  forall X b, kv_get s X = Some b -> h_cnt b = Z.of_nat (count_names s X).
+Proof.
+  intros ev ops H s X b Hb.
+  pose proof (final_inv ev ops empty_st Inv_empty H) as I. fold s in I.
+  destruct (ig_cnt _ _ I X b Hb) as [_ [_ [C _]]]. simpl in C. rewrite Nat.add_0_r in C. exact C.
+Qed.
+
+(* a record exists exactly as long as some name carries its id *)
+Theorem c21_gone_iff_last_partial : forall ev ops, c21_hist_quiet ev empty_st ops = true ->
+  let s := final ev empty_st ops in
+  forall X, X <> 0%N -> (kv_get s X <> None <-> (0 < count_names s X)%nat).
+Proof.
+  intros ev ops H s X HX.
+  pose proof (final_inv ev ops empty_st Inv_empty H) as I. fold s in I. split.
+  - intro Hk. destruct (kv_get s X) as [b|] eqn:E; [|congruence].
+    destruct (ig_cnt _ _ I X b E) as [_ [_ [_ D]]]. simpl in D. rewrite Nat.add_0_r in D. exact D.
+  - intro Hc. apply (ig_pres _ _ I X HX). simpl. rewrite Nat.add_0_r. exact Hc.
+Qed.
+
+(* ================= refutations of the full statements ================= *)
+Local Open Scope N_scope.
+Definition w_ev : env := mk_env [] 0.
+Definition w_file (tag : N) (cs : list chunk) : hentry := mk_hentry false 420 tag tag tag cs 0 0%Z.
+Definition w_c (k i : N) : chunk := Chunk k (i * 10) 10 k false.
+Definition pa : path := ["a"%string].
+Definition pb : path := ["b"%string].
+Definition pc : path := ["c"%string].
+Definition pd : path := ["d"%string].
+
+(* k = 0: rename of a linked name *)
+Definition w_rename : list op :=
+  [Create pa (w_file 1 [w_c 1 0; w_c 2 1]) false; Link pa pb 1; Rename pa pc; Write pb [w_c 5 0] 9 true].
+(* k = 1: a plain upload over a linked name, then the other name is unlinked *)
+Definition w_overwrite : list op :=
+  [Create pa (w_file 1 [w_c 1 0; w_c 2 1]) false; Link pa pb 1; Create pb (w_file 3 [w_c 7 0]) false; Unlink pa].
+(* k = 2: recursive delete without data deletion, then the other name is unlinked *)
+Definition w_rec_nodata : list op :=
+  [Create (pd ++ pa) (w_file 1 [w_c 1 0; w_c 2 1]) false; Link (pd ++ pa) pb 1; Delete pd true false false; Unlink pb].
+
+(* every history that respects the client assumptions satisfies the property at every step: FALSE *)
+Theorem c21_history_refuted :
+  exists ev ops, c21_hist_ok ev empty_st ops = true /\ c21_run_ok ev empty_st ops = false.
+Proof. exists w_ev, w_rename. split; vm_compute; reflexivity. Qed.
+
+(* after the rename, the two names that were one file differ once one of them is written *)
+Theorem c21_rename_detaches :
+  c21_hist_ok w_ev empty_st w_rename = true /\
+  (let s2 := final w_ev empty_st (firstn 2 w_rename) in
+   exists ea eb, nfind s2 pa = Some ea /\ nfind s2 pb = Some eb /\ linked ea eb = true) /\
+  (let s := final w_ev empty_st w_rename in
+   exists ec eb, model_view s pc = Some ec /\ model_view s pb = Some eb /\
+                 h_chunks ec <> h_chunks eb /\ h_hl ec = 0).
+Proof.
+  split; [vm_compute; reflexivity|]. split.
+  - vm_compute. eexists. eexists. repeat split.
+  - vm_compute. eexists. eexists. repeat split. discriminate.
+Qed.
+
+Theorem c21_counter_refuted :
+  exists ev ops, c21_hist_ok ev empty_st ops = true /\
+    exists X b, kv_get (final ev empty_st ops) X = Some b /\
+                h_cnt b <> Z.of_nat (count_names (final ev empty_st ops) X).
+Proof.
+  exists w_ev, (firstn 3 w_overwrite). split; [vm_compute; reflexivity|].
+  exists 1. vm_compute. eexists. split; [reflexivity|]. discriminate.
+Qed.
+
+Theorem c21_gone_iff_last_refuted :
+  exists ev ops, c21_hist_ok ev empty_st ops = true /\
+    exists X, kv_get (final ev empty_st ops) X <> None /\ count_names (final ev empty_st ops) X = 0%nat.
+Proof.
+  exists w_ev, w_overwrite. split; [vm_compute; reflexivity|].
+  exists 1. vm_compute. split; [discriminate|reflexivity].
+Qed.
+
+Theorem c21_recursive_nodata_refuted :
+  c21_hist_ok w_ev empty_st w_rec_nodata = true /\
+  exists X, kv_get (final w_ev empty_st w_rec_nodata) X <> None /\
+            count_names (final w_ev empty_st w_rec_nodata) X = 0%nat.
+Proof. split; [vm_compute; reflexivity|]. exists 1. vm_compute. split; [discriminate|reflexivity]. Qed.
+
+(* the triggers name the steps that fail *)
+Theorem c21_witness_triggers :
+  c21_first_failure w_ev empty_st w_rename = Some (Some 0) /\
+  c21_first_failure w_ev empty_st w_overwrite = Some (Some 1) /\
+  c21_first_failure w_ev empty_st w_rec_nodata = Some (Some 2).
+Proof. repeat split; vm_compute; reflexivity. Qed.
+
+(* outside the observation points of the property (FindEntry, the KV record): a directory listing
+   hands out the per-name blobs (leveldb2 lists natively, the wrapper does not resolve the link
+   record there), so after a write through /a the listing still shows /b with the old chunks *)
+Definition w_listing : list op :=
+  [Create pa (w_file 1 [w_c 1 0]) false; Link pa pb 1; Write pa [w_c 5 0] 9 true].
+Theorem c21_listing_stale :
+  c21_hist_quiet w_ev empty_st w_listing = true /\
+  (let s := final w_ev empty_st w_listing in
+   exists e v, In ("b"%string, e) (list_children s []) /\ model_view s pb = Some v /\
+               h_chunks e = [w_c 1 0] /\ h_chunks v = [w_c 5 0]).
+Proof.
+  split; [vm_compute; reflexivity|]. vm_compute. eexists. eexists.
+  split; [right; left; reflexivity|]. split; [reflexivity|]. split; reflexivity.
+Qed.
+
+(* non-vacuity: a history with two link groups, writes through several names and unlinks down to
+   nothing is inside the hypothesis of the partial theorems *)
+Definition w_clean : list op :=
+  [Create pa (w_file 1 [w_c 1 0; w_c 2 1]) false; Link pa pb 1;
+   Create pd (mk_hentry true 493 9 9 9 [] 0 0%Z) false; Link pb (pd ++ pa) 2;
+   Create pc (w_file 2 [w_c 3 0]) false; Link pc (pd ++ pb) 2;
+   Write (pd ++ pa) [w_c 1 0; w_c 4 1] 5 true; Write pb [w_c 1 0; w_c 4 1] 6 false;
+   Append (pd ++ pb) [Chunk 6 0 5 6 false];
+   Unlink pa; Delete pd true false true; Unlink pb; Unlink pc].
+
+Example c21_clean_is_quiet :
+  c21_hist_quiet w_ev empty_st w_clean = true /\
+  kvs (final w_ev empty_st (firstn 9 w_clean)) <> [] /\
+  final w_ev empty_st w_clean = empty_st.
+Proof. split; [vm_compute; reflexivity|]. split; vm_compute; [discriminate|reflexivity]. Qed.
